@@ -129,6 +129,12 @@ func scenario(x *explore.X) {
 	lines, hasOwn, desc := chains(x, own, tag)
 	var sb strings.Builder
 	sb.WriteString("GET " + target + " " + version + "\r\nHost: " + originHost + "\r\n")
+	// the client may nominate Via in Connection (legal): whatever that does to the elements it sent, the request
+	// this instance forwards carries this instance's element
+	nominated := x.Choose("client-nominates-via-in-connection", 2) == 1
+	if nominated {
+		sb.WriteString("Connection: Via\r\n")
+	}
 	for i, l := range lines {
 		sb.WriteString("Via: " + l + "\r\n")
 		if i == 0 && len(lines) > 1 {
@@ -145,7 +151,11 @@ func scenario(x *explore.X) {
 	rs := httpwire.ParseResponses(cl.Recv(), []string{"GET", "GET"}, false)
 	if hasOwn {
 		if len(msgs) != 0 || nh.TotalBytes() != bytesBefore || len(w.Net.Dials()) != dialsBefore {
-			x.Failf("loop-not-detected", "Via %s contains this instance's element %q but the request was forwarded (dials %v)", desc, tag, w.Net.Dials()[dialsBefore:])
+			sig := "loop-not-detected"
+			if nominated {
+				sig = "loop-not-detected/via-nominated-in-connection"
+			}
+			x.Failf(sig, "Via %s contains this instance's element %q but the request was forwarded (dials %v; Connection: Via sent by the client: %v)", desc, tag, w.Net.Dials()[dialsBefore:], nominated)
 		} else if len(rs.Msgs) != 2 || rs.Msgs[1].Status != 400 {
 			x.Failf("loop-status", "Via %s contains this instance's element: want 400, client stream %q", desc, world.Clip(cl.Recv()))
 		}
@@ -156,8 +166,12 @@ func scenario(x *explore.X) {
 		} else {
 			got := elems(msgs[0].Get("Via"))
 			want := append(elems(lines), strings.TrimPrefix(version, "HTTP/")+" "+tag)
+			if nominated {
+				// (the client's own elements are hop-by-hop by its choice and go; C01's business)
+				want = want[len(want)-1:]
+			}
 			if strings.Join(got, "|") != strings.Join(want, "|") {
-				x.Failf("via-chain", "forwarded Via elements %q, want %q", got, want)
+				x.Failf("via-chain", "forwarded Via elements %q, want %q (client nominated Via in Connection: %v)", got, want, nominated)
 			}
 			nh.Conns[conns[0]].Send([]byte("HTTP/1.1 200 OK\r\nContent-Length: 2\r\n\r\nok"))
 		}
